@@ -1,9 +1,390 @@
 package props
 
-import "verif/internal/core"
+import (
+	"bufio"
+	"fmt"
+	"net"
+	"net/http"
+	"path/filepath"
+	"sort"
+	"strings"
+	"sync"
+	"sync/atomic"
+	"time"
 
-// C05 — stub, replaced by the real check.
-func C05(r *core.Run) {
-	r.Broken("check not implemented yet")
-	r.Finish(1)
+	"verif/internal/core"
+	"verif/internal/fakes"
+	"verif/internal/rawhttp"
+)
+
+// c05Inner incrementally parses the serialised inner response arriving in
+// an upload and counts the inner body bytes seen so far.
+type c05Inner struct {
+	mu       sync.Mutex
+	state    int // 0 header, 1 chunk-size line, 2 chunk data, 3 CRLF after data, 4 trailer/end
+	line     []byte
+	remain   int64
+	body     int64 // inner body bytes observed
+	hdrDone  bool
+	finished bool
+	bad      string
+	cond     *sync.Cond
+	hdrTail  []byte
 }
+
+func newC05Inner() *c05Inner {
+	p := &c05Inner{}
+	p.cond = sync.NewCond(&p.mu)
+	return p
+}
+
+func (p *c05Inner) feed(b []byte) {
+	p.mu.Lock()
+	defer p.mu.Unlock()
+	for len(b) > 0 && p.bad == "" {
+		switch p.state {
+		case 0:
+			p.hdrTail = append(p.hdrTail, b[0])
+			b = b[1:]
+			if n := len(p.hdrTail); n >= 4 && string(p.hdrTail[n-4:]) == "\r\n\r\n" {
+				p.hdrDone = true
+				p.state = 1
+				p.line = p.line[:0]
+			}
+		case 1:
+			c := b[0]
+			b = b[1:]
+			if c == '\n' {
+				var sz int64
+				s := strings.TrimSpace(string(p.line))
+				if _, err := fmt.Sscanf(s, "%x", &sz); err != nil {
+					p.bad = "bad inner chunk size " + s
+					break
+				}
+				p.line = p.line[:0]
+				if sz == 0 {
+					p.state = 4
+				} else {
+					p.remain = sz
+					p.state = 2
+				}
+			} else {
+				p.line = append(p.line, c)
+			}
+		case 2:
+			n := int64(len(b))
+			if n > p.remain {
+				n = p.remain
+			}
+			p.body += n
+			p.remain -= n
+			b = b[n:]
+			if p.remain == 0 {
+				p.state = 3
+				p.remain = 2
+			}
+		case 3:
+			b = b[1:]
+			p.remain--
+			if p.remain == 0 {
+				p.state = 1
+			}
+		case 4:
+			b = nil
+		}
+	}
+	p.cond.Broadcast()
+}
+
+func (p *c05Inner) finish() {
+	p.mu.Lock()
+	p.finished = true
+	p.cond.Broadcast()
+	p.mu.Unlock()
+}
+
+// waitBody waits until at least n inner body bytes were observed.
+func (p *c05Inner) waitBody(n int64, d time.Duration) (ok bool, got int64) {
+	deadline := time.Now().Add(d)
+	t := time.AfterFunc(d+10*time.Millisecond, func() { p.mu.Lock(); p.cond.Broadcast(); p.mu.Unlock() })
+	defer t.Stop()
+	p.mu.Lock()
+	defer p.mu.Unlock()
+	for p.body < n && !p.finished && p.bad == "" && time.Now().Before(deadline) {
+		p.cond.Wait()
+	}
+	return p.body >= n, p.body
+}
+
+type c05Case struct {
+	ID      string `json:"id"`
+	Chunks  []int  `json:"chunks"`
+	PauseMs int    `json:"pause_ms"`
+	SSE     bool   `json:"sse"`
+	Class   string `json:"class"`
+}
+
+type c05Outcome struct {
+	c         c05Case
+	missedAt  int // chunk index whose observation missed the bound (-1 none)
+	observed  int64
+	latencies []time.Duration
+	completed bool
+	err       string
+}
+
+// C05 — responses stream through the agent chunk by chunk.
+func C05(r *core.Run) {
+	r.SetRule("real agent + fake proxy that de-chunks the upload incrementally and parses the inner serialised response on the fly + lock-step raw backend: chunk i+1 is emitted only after the proxy-side observer has seen all bytes of chunk i; bounded restatement: every chunk observed within T=5s of being flushed (measured latencies are reported), response completes; class = (chunk-count class, chunk-size class, pause class, content type)")
+	r.Assume("progress bound T=5s (>= 20x the latency measured on the unchanged tree); a miss is confirmed by re-running the case alone with T=10s before it is reported")
+	agentBin := r.MustBuild(r.BuildRepoBinary("./agent", "agent"))
+	md, err := fakes.NewMetadata()
+	if err != nil {
+		r.Broken(err.Error())
+		r.Finish(1)
+	}
+	defer md.Close()
+	px, err := fakes.NewProxy()
+	if err != nil {
+		r.Broken(err.Error())
+		r.Finish(1)
+	}
+	defer px.Close()
+	px.ListWait = 100 * time.Millisecond
+	var mu sync.Mutex
+	inners := map[string]*c05Inner{}
+	scripts := map[string]c05Case{}
+	outcomes := map[string]*c05Outcome{}
+	bound := map[string]time.Duration{}
+	getInner := func(id string) *c05Inner {
+		mu.Lock()
+		defer mu.Unlock()
+		if inners[id] == nil {
+			inners[id] = newC05Inner()
+		}
+		return inners[id]
+	}
+	px.OnResponse = func(id string, w http.ResponseWriter, req *http.Request) bool {
+		in := getInner(id)
+		px.AcceptUpload(id, w, req, in.feed)
+		in.finish()
+		return true
+	}
+	backend, err := rawhttp.NewServer(func(req *rawhttp.Message, reqErr error, conn net.Conn, br *bufio.Reader) bool {
+		if reqErr != nil {
+			return false
+		}
+		id := strings.TrimPrefix(req.Target, "/c05/")
+		mu.Lock()
+		c, ok := scripts[id]
+		T := bound[id]
+		mu.Unlock()
+		if !ok {
+			var w rawhttp.Builder
+			w.Line("HTTP/1.1 200 OK").Field("Content-Length", "2").End()
+			w.WriteString("ok")
+			conn.Write(w.Bytes())
+			return true
+		}
+		in := getInner(id)
+		out := &c05Outcome{c: c, missedAt: -1}
+		var w rawhttp.Builder
+		w.Line("HTTP/1.1 200 OK")
+		if c.SSE {
+			w.Field("Content-Type", "text/event-stream")
+		} else {
+			w.Field("Content-Type", "application/octet-stream")
+		}
+		w.Field("Transfer-Encoding", "chunked").End()
+		conn.Write(w.Bytes())
+		var sent int64
+		for i, n := range c.Chunks {
+			var cw rawhttp.Builder
+			cw.Chunk(tokBytes(id, fmt.Sprint(i), n))
+			t0 := time.Now()
+			if _, err := conn.Write(cw.Bytes()); err != nil {
+				out.err = err.Error()
+				break
+			}
+			sent += int64(n)
+			ok, got := in.waitBody(sent, T)
+			out.observed = got
+			if !ok {
+				out.missedAt = i
+				break
+			}
+			out.latencies = append(out.latencies, time.Since(t0))
+			if c.PauseMs > 0 {
+				time.Sleep(time.Duration(c.PauseMs) * time.Millisecond)
+			}
+		}
+		if out.missedAt < 0 && out.err == "" {
+			var cw rawhttp.Builder
+			cw.LastChunk(nil)
+			conn.Write(cw.Bytes())
+			if _, ok := px.Wait(id, T); ok {
+				out.completed = true
+			}
+		}
+		mu.Lock()
+		outcomes[id] = out
+		mu.Unlock()
+		return out.completed
+	})
+	if err != nil {
+		r.Broken(err.Error())
+		r.Finish(1)
+	}
+	defer backend.Close()
+	agent, err := startAgent(r, agentBin, "agent", md, px.URL(), backend.Addr(), "b5")
+	if err != nil {
+		r.Broken(err.Error())
+		r.Finish(1)
+	}
+	defer agent.Kill()
+
+	rng := r.Rand("c05")
+	n := r.Pick(48, 640)
+	sizes := []int{1, 2, 100, 4095, 4096, 4097, 32 << 10, 1 << 20}
+	var cases []c05Case
+	for i := 0; i < n; i++ {
+		c := c05Case{ID: fmt.Sprintf("s%dc%d", r.Seed, i), SSE: i%3 == 0, PauseMs: []int{0, 0, 1, 10, 50}[rng.Intn(5)]}
+		cnt := []int{1, 2, 3, 8, 20, 50}[rng.Intn(6)]
+		szClass := rng.Intn(len(sizes) + 2)
+		maxSz := 0
+		for k := 0; k < cnt; k++ {
+			var s int
+			switch {
+			case szClass < len(sizes):
+				s = sizes[szClass]
+			case szClass == len(sizes):
+				s = 1 + rng.Intn(70000)
+			default:
+				s = sizes[rng.Intn(len(sizes))]
+			}
+			if s >= 1<<20 && (cnt > 8 || r.Quick() && cnt > 3) {
+				s = 32 << 10
+			}
+			if s > maxSz {
+				maxSz = s
+			}
+			c.Chunks = append(c.Chunks, s)
+		}
+		c.Class = fmt.Sprintf("n=%d|max=%s|mix=%v|pause=%d|sse=%v", cnt, sizeClass(maxSz), szClass >= len(sizes), c.PauseMs, c.SSE)
+		cases = append(cases, c)
+	}
+	run := func(cs []c05Case, T time.Duration, par int) {
+		sem := make(chan struct{}, par)
+		var wg sync.WaitGroup
+		for _, c := range cs {
+			mu.Lock()
+			scripts[c.ID] = c
+			bound[c.ID] = T
+			delete(outcomes, c.ID)
+			delete(inners, c.ID)
+			mu.Unlock()
+			sem <- struct{}{}
+			wg.Add(1)
+			go func(c c05Case) {
+				defer wg.Done()
+				defer func() { <-sem }()
+				var w rawhttp.Builder
+				w.Line("GET /c05/" + c.ID + " HTTP/1.1").Field("Host", "c05.example").Field("Accept-Encoding", "identity").End()
+				px.Enqueue(c.ID, w.Bytes(), "")
+				// wait for the backend side to finish the script
+				deadline := time.Now().Add(T*time.Duration(len(c.Chunks)+2) + 10*time.Second)
+				for time.Now().Before(deadline) {
+					mu.Lock()
+					_, done := outcomes[c.ID]
+					mu.Unlock()
+					if done {
+						return
+					}
+					time.Sleep(2 * time.Millisecond)
+				}
+			}(c)
+		}
+		wg.Wait()
+	}
+	run(cases, 5*time.Second, 8)
+	var lat []time.Duration
+	var total int64
+	confirmedMisses := 0
+	for _, c := range cases {
+		mu.Lock()
+		out := outcomes[c.ID]
+		mu.Unlock()
+		r.Case(c.Class)
+		if out == nil || out.missedAt >= 0 || !out.completed {
+			if confirmedMisses >= 4 {
+				// enough confirmed witnesses; further misses of the first run are not re-run (each costs >= 10 s)
+				r.Inconclusive(fmt.Sprintf("case %s missed the 5s bound; not re-confirmed because 4 misses were already confirmed", c.ID))
+				continue
+			}
+			// confirm alone with a doubled bound
+			c2 := c
+			c2.ID = c.ID + "-solo"
+			run([]c05Case{c2}, 10*time.Second, 1)
+			mu.Lock()
+			o2 := outcomes[c2.ID]
+			mu.Unlock()
+			switch {
+			case o2 == nil:
+				r.Violate("C05:request-never-reached-backend", fmt.Sprintf("case %v: the request was listed but the backend script never ran or finished", c.Chunks), c, nil)
+			case o2.missedAt >= 0:
+				first := "later"
+				if o2.missedAt == 0 {
+					first = "first"
+				}
+				r.Violate("C05:chunk-not-relayed:"+first+"-chunk:"+sizeClass(c.Chunks[o2.missedAt]), fmt.Sprintf("chunk %d (%d bytes) of %v was flushed by the backend but the proxy had observed only %d body bytes 10s later (and 5s in the first run)", o2.missedAt, c.Chunks[o2.missedAt], c.Chunks, o2.observed), c, nil)
+			case !o2.completed:
+				r.Violate("C05:response-did-not-complete", fmt.Sprintf("all chunks %v observed but the upload did not complete within 10s", c.Chunks), c, nil)
+			default:
+				r.Inconclusive(fmt.Sprintf("case %s missed the 5s bound once but passed alone", c.ID))
+				out = o2
+			}
+			if o2 == nil || o2.missedAt >= 0 || !o2.completed {
+				confirmedMisses++
+				continue
+			}
+		}
+		lat = append(lat, out.latencies...)
+		for _, s := range c.Chunks {
+			total += int64(s)
+		}
+		// totals equal
+		ups := px.Uploads(out.c.ID)
+		if len(ups) > 0 && ups[len(ups)-1].Resp != nil {
+			var want int
+			for _, s := range c.Chunks {
+				want += s
+			}
+			if got := len(ups[len(ups)-1].Resp.Body); got != want {
+				r.Violate("C05:streamed-body-length", fmt.Sprintf("uploaded body has %d bytes, backend sent %d", got, want), c, nil)
+			}
+		}
+		if len(c.Chunks) > 1 && len(c.Chunks) < 10 {
+			r.Sample(map[string]interface{}{"case": c, "chunk_latencies_us": durUs(out.latencies)})
+		}
+	}
+	sort.Slice(lat, func(i, j int) bool { return lat[i] < lat[j] })
+	if len(lat) > 0 {
+		r.Set("chunk_latency_us", map[string]int64{"p50": lat[len(lat)/2].Microseconds(), "p99": lat[len(lat)*99/100].Microseconds(), "max": lat[len(lat)-1].Microseconds()})
+	}
+	r.Set("chunks_observed_in_lock_step", len(lat))
+	r.Set("body_bytes_streamed", total)
+	judgeProcs(r, true, agent)
+	agent.Kill()
+	r.JudgeRaces(core.ParseRaceLogs(filepath.Join(r.WorkDir, "race-")))
+	r.Finish(r.Pick(30, 400))
+}
+
+func durUs(ds []time.Duration) []int64 {
+	out := make([]int64, len(ds))
+	for i, d := range ds {
+		out[i] = d.Microseconds()
+	}
+	return out
+}
+
+var _ = atomic.AddInt64
